@@ -60,9 +60,11 @@ def nontrivial(ref, tol):
 
 
 def omegas(L):
-    """Analysis frequencies: DC, Nyquist, integer bins, fractional bin, near-edge."""
+    """Analysis frequencies: DC, Nyquist, integer bins, fractional bin, near-edge, and three with |sin w| < 1e-4."""
     ws = [0.0, np.pi, 2 * np.pi * 1 / L, 2 * np.pi * (L // 2) / L,
-          2 * np.pi * 1.37 / L if L > 1 else 1.234, 0.1, np.pi - 0.1]
+          2 * np.pi * 1.37 / L if L > 1 else 1.234, 0.1, np.pi - 0.1,
+          # far below the first bin and just under Nyquist (|sin w| tiny): long-record territory, reachable at kernel level for any L
+          3e-5, np.pi - 3e-5, 1e-8]
     out = []
     for w in ws:
         w = float(min(max(w, 0.0), np.pi))
